@@ -38,6 +38,7 @@ func stress(args []string) {
 				Query     string          `json:"query"`
 				Variables map[string]any  `json:"variables"`
 				Oracle    json.RawMessage `json:"oracle"`
+				RegExt    bool            `json:"register_ext"`
 			} `json:"replay"`
 		} `json:"case"`
 	}
@@ -60,7 +61,7 @@ func stress(args []string) {
 	}
 	var cases []xeng.Case
 	for i := 0; i < n; i++ {
-		cases = append(cases, xeng.Case{ID: i, Query: rp.Query, Variables: rp.Variables, Oracle: orc})
+		cases = append(cases, xeng.Case{ID: i, Query: rp.Query, Variables: rp.Variables, Oracle: orc, RegisterExt: rp.RegExt})
 	}
 	res, err := xeng.RunAll(probes[0].Built.Bin, cases)
 	if err != nil {
